@@ -187,8 +187,10 @@ func (t *Trans) Header() string {
        (=> ((_ is vfunc) v) (<= (rid (fenv (nval v))) a))))
 `)
 	b.WriteString(t.env.StructDecls())
-	b.WriteString(t.P.preludeText(t.uses))
+	mods := t.expandLits(t.P.preludeText(t.uses))
 	b.WriteString(t.env.TypeTable())
+	b.WriteString(t.env.LitDecls())
+	b.WriteString(mods)
 	b.WriteString(t.env.Decls())
 	for _, c := range t.env.compOrd {
 		fmt.Fprintf(&b, "(declare-const %s@0 %s)\n", c, t.env.comps[c])
@@ -244,4 +246,20 @@ func revealInstance(sc *SpecCtx, x *Sx) string {
 	app := sc.expand(x)
 	d := &Sx{IsL: true, List: append([]*Sx{A(x.List[0].Atom + "!def")}, x.List[1:]...)}
 	return fmt.Sprintf("(= %s %s)", app, sc.expand(d))
+}
+
+// expandLits replaces (lit "text") in prelude modules by the symbol of that string literal.
+func (t *Trans) expandLits(txt string) string {
+	for {
+		i := strings.Index(txt, "(lit \"")
+		if i < 0 {
+			return txt
+		}
+		j := strings.Index(txt[i+6:], "\")")
+		if j < 0 {
+			return txt
+		}
+		lit := txt[i+6 : i+6+j]
+		txt = txt[:i] + t.env.Lit(lit) + txt[i+6+j+2:]
+	}
 }
